@@ -341,3 +341,7 @@ mod test {
         assert!(iter.next().is_none());
     }
 }
+
+#[cfg(kani)]
+#[path = "/verif/kani/stats.rs"]
+mod verif_kani;
